@@ -220,6 +220,8 @@ impl<T: Clone> WaitList<T> {
         };
         if notify {
             NOTIFY_WAITER_AVAILABLE.click();
+            #[cfg(blue_verif)]
+            crate::verif::event("notify_available_pre", index, 0, 0);
             self.wait_waiter_available.notify_one();
             #[cfg(blue_verif)]
             crate::verif::event("notify_available", index, 0, 0);
@@ -234,6 +236,8 @@ impl<T: Clone> WaitList<T> {
         let state = self.state.lock().unwrap();
         if state.head < state.tail {
             NOTIFY_HEAD.click();
+            #[cfg(blue_verif)]
+            crate::verif::event("notify_head_pre", 1, state.head, state.tail);
             self.index_waitlist(state.head).cond.notify_one();
             #[cfg(blue_verif)]
             crate::verif::event("notify_head", 1, state.head, state.tail);
